@@ -1,1 +1,2 @@
 // logical models and reference implementations
+pub mod civil;
